@@ -28,6 +28,13 @@ structure QObj where
   ok : Bool
 deriving DecidableEq, Repr
 
+/-- a derived `Quantity` object: the composing map `category ↦ [unit, exponent]` in its order, and
+the `quantity type ↦ summed exponent` list computed (from the registry) when it was created -/
+structure DObj where
+  entries : List (Sym × Sym × Int)
+  qtypes : List (Sym × Int)
+deriving DecidableEq, Repr
+
 structure CState where
   reg : Registry
   /-- `_category_unit_valid` -/
@@ -36,9 +43,12 @@ structure CState where
   for quantities asked for by name and `""` (`true`) for the copies arithmetic makes
   (`CreateCopyInstance` passes the quantity's own caption, which is stored as `""`) -/
   cache : List ((Option Sym × Sym × Bool) × QObj)
+  /-- the entries of `quantities_cache` whose key is the tuple of `(category, (unit, exponent))`
+  pairs of a derived quantity, in the order of the request -/
+  dcache : List (List (Sym × Sym × Int) × DObj) := []
 deriving DecidableEq, Repr
 
-def CState.fresh (r : Registry) : CState := ⟨r, [], []⟩
+def CState.fresh (r : Registry) : CState := ⟨r, [], [], []⟩
 
 def memoGet : List ((Sym × Sym) × Bool) → Sym × Sym → Option Bool
   | [], _ => none
@@ -55,7 +65,7 @@ computes the verdict and memoises it, positive or negative -/
 def checkCategoryUnit (s : CState) (c u : Sym) : CState × Bool :=
   match memoGet s.memo (c, u) with
   | some v => (s, v)
-  | none => (⟨s.reg, ((c, u), categoryUnitValid lg s.reg c u) :: s.memo, s.cache⟩,
+  | none => (⟨s.reg, ((c, u), categoryUnitValid lg s.reg c u) :: s.memo, s.cache, s.dcache⟩,
              categoryUnitValid lg s.reg c u)
 
 /-- the tail of `Quantity.__init__` once the unit is accepted -/
@@ -85,7 +95,7 @@ def obtain (s : CState) (cap : Bool) (c u : Sym) : CState × Except ErrKind QObj
   | some q => (s, .ok q)
   | none =>
     match (newQuantity lg s c u).2 with
-    | .ok q => (⟨s.reg, (newQuantity lg s c u).1.memo, ((some c, u, cap), q) :: (newQuantity lg s c u).1.cache⟩, .ok q)
+    | .ok q => (⟨s.reg, (newQuantity lg s c u).1.memo, ((some c, u, cap), q) :: (newQuantity lg s c u).1.cache, s.dcache⟩, .ok q)
     | .error e => ((newQuantity lg s c u).1, .error e)
 
 /-- the category and unit `ObtainQuantity(unit, None)` resolves to (`0` = no category: the
@@ -116,7 +126,7 @@ def obtainU (s : CState) (u : Sym) : CState × Except ErrKind QObj :=
         if c = 0 then (s, .error .type) else
         match (newQuantity lg s c u').2 with
         | .ok q => (⟨s.reg, (newQuantity lg s c u').1.memo,
-                     ((none, u, false), q) :: ((some c, u', false), q) :: (newQuantity lg s c u').1.cache⟩, .ok q)
+                     ((none, u, false), q) :: ((some c, u', false), q) :: (newQuantity lg s c u').1.cache, s.dcache⟩, .ok q)
         | .error e => ((newQuantity lg s c u').1, .error e)
 
 /-- `Quantity.ConvertScalarValue(value, to_unit)` of a simple quantity -/
@@ -195,6 +205,119 @@ def sumSimple (s : CState) (a b : QObj) (x y : Rat) : CState × Except ErrKind (
             | .error e => .error e
             | .ok _ => if a.unit = b.unit then .ok (a.cat, a.unit, x + y) else .error .units)
 
+def exMap {α β : Type} (f : α → β) : Except ErrKind α → Except ErrKind β
+  | .ok a => .ok (f a)
+  | .error e => .error e
+
+/-! ### derived quantities: `ObtainQuantity(OrderedDict)`, `Quantity.CreateDerived`, products and quotients -/
+
+def dcacheGet : List (List (Sym × Sym × Int) × DObj) → List (Sym × Sym × Int) → Option DObj
+  | [], _ => none
+  | (k, v) :: m, key => if k = key then some v else dcacheGet m key
+
+/-- `rep_and_exp[quantity_type] = existing + exp` -/
+def addQt : List (Sym × Int) → Sym → Int → List (Sym × Int)
+  | [], qt, e => [(qt, e)]
+  | (k, v) :: rest, qt, e => if k = qt then (k, v + e) :: rest else (k, v) :: addQt rest qt e
+
+/-- the loop of the derived branch of `Quantity.__init__`: `GetCategoryQuantityType` of every
+composing category (`InvalidQuantityTypeError` for an unknown one) -/
+def typePairs (r : Registry) : List (Sym × Sym × Int) → List (Sym × Int) → Except ErrKind (List (Sym × Int))
+  | [], acc => .ok acc
+  | (c, _, e) :: rest, acc =>
+    match getCategoryInfo r c with
+    | .error err => .error err
+    | .ok ci => typePairs r rest (addQt acc ci.qtype e)
+
+/-- `Quantity(OrderedDict, None)` -/
+def newDerived (r : Registry) (entries : List (Sym × Sym × Int)) : Except ErrKind DObj :=
+  match typePairs r entries [] with
+  | .ok qts => .ok ⟨entries, qts⟩
+  | .error e => .error e
+
+/-- what a request for a quantity by its composing map returns: a simple or a derived quantity,
+described by its composing map and its quantity types -/
+def descOfSimple (q : QObj) : DObj := ⟨[(q.cat, q.unit, 1)], [(q.qtype, 1)]⟩
+
+/-- "Although passed as composing, it's a simple case": a single entry with exponent 1 -/
+def simpleCase : List (Sym × Sym × Int) → Option (Sym × Sym)
+  | [(c, u, e)] => if e = 1 then some (c, u) else none
+  | _ => none
+
+/-- `ObtainQuantity(OrderedDict)`: the simple case goes the way of `ObtainQuantity(unit, category)`;
+otherwise the cache key is the tuple of the entries IN THE ORDER GIVEN -/
+def obtainDict (s : CState) (entries : List (Sym × Sym × Int)) : CState × Except ErrKind DObj :=
+  match simpleCase entries with
+  | some (c, u) => ((obtain lg s false c u).1, exMap descOfSimple (obtain lg s false c u).2)
+  | none =>
+    match dcacheGet s.dcache entries with
+    | some d => (s, .ok d)
+    | none =>
+      match newDerived s.reg entries with
+      | .ok d => (⟨s.reg, s.memo, s.cache, (entries, d) :: s.dcache⟩, .ok d)
+      | .error e => (s, .error e)
+
+/-- the validation loop of `Quantity._CreateDerived` -/
+def validateEntries (r : Registry) : List (Sym × Sym × Int) → Except ErrKind Unit
+  | [] => .ok ()
+  | (c, u, _) :: rest =>
+    match getCategoryInfo r c with
+    | .error e => .error e
+    | .ok ci => if quantityTypeUnitOk lg r ci.qtype u then validateEntries r rest else .error .units
+
+/-- `Quantity.CreateDerived(category_to_unit_and_exps)` -/
+def createDerived (s : CState) (entries : List (Sym × Sym × Int)) : CState × Except ErrKind DObj :=
+  match validateEntries lg s.reg entries with
+  | .error e => (s, .error e)
+  | .ok _ => obtainDict lg s entries
+
+inductive ProdOp
+  | mul
+  | div
+deriving DecidableEq, Repr
+
+/-- "add the categories to the resulting one": the composing map of the first operand, extended or
+updated with the (matched) entry of the second -/
+def mergeEntries (op : ProdOp) (a b : QObj) (unit2 : Sym) : Except ErrKind (List (Sym × Sym × Int)) :=
+  if b.cat = a.cat then
+    if a.unit = unit2 then .ok [(a.cat, a.unit, match op with | .mul => 2 | .div => 0)]
+    else .error .runtime
+  else .ok [(a.cat, a.unit, 1), (b.cat, unit2, match op with | .mul => 1 | .div => -1)]
+
+/-- `only_units_expoents[unit]` -/
+def unitTotal : List (Sym × Sym × Int) → Sym → Int
+  | [], _ => 0
+  | (_, v, e) :: rest, u => (if v = u then e else 0) + unitTotal rest u
+
+/-- "remove the ones that have exponent = 0" (own exponent, or total exponent of the unit) -/
+def prune (es : List (Sym × Sym × Int)) : List (Sym × Sym × Int) :=
+  es.filter (fun e => e.2.2 != 0 && unitTotal es e.2.1 != 0)
+
+/-- `_DoOperationResultingInNewQuantity` on two simple quantities (`Multiply`, `Divide`):
+`_MatchQuantities` gives the second operand the first one's unit when both categories have the same
+quantity type, the composing maps are merged, and the result is created through `CreateDerived`;
+the numbers are combined last (`ZeroDivisionError` after the quantity was created) -/
+def prodSimple (s : CState) (op : ProdOp) (a b : QObj) (x y : Rat) : CState × Except ErrKind (DObj × Rat) :=
+  match getCategoryInfo s.reg a.cat with
+  | .error e => (s, .error e)
+  | .ok ca =>
+    match getCategoryInfo s.reg b.cat with
+    | .error e => (s, .error e)
+    | .ok cb =>
+      match (if ca.qtype = cb.qtype then convert lg s.reg ca.qtype b.unit a.unit y else .ok y) with
+      | .error e => (s, .error e)
+      | .ok y' =>
+        match mergeEntries op a b (if ca.qtype = cb.qtype then a.unit else b.unit) with
+        | .error e => (s, .error e)
+        | .ok es =>
+          ((createDerived lg s (prune es)).1,
+            match (createDerived lg s (prune es)).2 with
+            | .error e => .error e
+            | .ok d =>
+              match op with
+              | .mul => .ok (d, x * y')
+              | .div => if y' = 0 then .error .other else .ok (d, x / y'))
+
 /-- read-only operations: closed expressions over plain data -/
 inductive Query
   | check (c u : Sym)                       -- db.CheckCategoryUnit(c, u)
@@ -211,6 +334,9 @@ inductive Query
   | defaultCategory (u : Sym)
   | quantityType (u : Sym)
   | catInfo (c : Sym)
+  | prod (op : ProdOp) (c1 u1 c2 u2 : Sym) (x y : Rat)   -- Scalar(x, u1, c1) * or / Scalar(y, u2, c2)
+  | derived (entries : List (Sym × Sym × Int))          -- ObtainQuantity(OrderedDict(entries))
+  | createDerived (entries : List (Sym × Sym × Int))    -- Quantity.CreateDerived(OrderedDict(entries))
 deriving DecidableEq, Repr
 
 inductive Ans
@@ -222,11 +348,9 @@ inductive Ans
   | sym (s : Sym)
   | bool (b : Bool)
   | cat (ci : CatRow)
+  | desc (d : DObj)
+  | descValue (d : DObj) (x : Rat)
 deriving DecidableEq, Repr
-
-def exMap {α β : Type} (f : α → β) : Except ErrKind α → Except ErrKind β
-  | .ok a => .ok (f a)
-  | .error e => .error e
 
 /-- the answer to a query in a session state, and the state it leaves (memo tables may grow) -/
 def answer (s : CState) : Query → CState × Except ErrKind Ans
@@ -270,6 +394,18 @@ def answer (s : CState) : Query → CState × Except ErrKind Ans
   | .defaultCategory u => (s, exMap .sym (getDefaultCategory lg s.reg u))
   | .quantityType u => (s, .ok (.sym (getQuantityType s.reg u)))
   | .catInfo c => (s, exMap .cat (getCategoryInfo s.reg c))
+  | .prod op c1 u1 c2 u2 x y =>
+    match (obtain lg s false c1 u1).2 with
+    | .error e => ((obtain lg s false c1 u1).1, .error e)
+    | .ok a =>
+      match (obtain lg (obtain lg s false c1 u1).1 false c2 u2).2 with
+      | .error e => ((obtain lg (obtain lg s false c1 u1).1 false c2 u2).1, .error e)
+      | .ok b =>
+        ((prodSimple lg (obtain lg (obtain lg s false c1 u1).1 false c2 u2).1 op a b x y).1,
+          exMap (fun t => .descValue t.1 t.2)
+            (prodSimple lg (obtain lg (obtain lg s false c1 u1).1 false c2 u2).1 op a b x y).2)
+  | .derived entries => ((obtainDict lg s entries).1, exMap .desc (obtainDict lg s entries).2)
+  | .createDerived entries => ((createDerived lg s entries).1, exMap .desc (createDerived lg s entries).2)
 
 /-- the cache-free meaning of a query: its answer on a database that has just been built from the
 same registry (empty memo tables) -/
@@ -291,7 +427,7 @@ def cstep (s : CState) : COp → CState × Except ErrKind COut
   | .reg op =>
     match (step lg s.reg op).2 with
     | .ok o => (CState.fresh (step lg s.reg op).1, .ok (.reg o))
-    | .error e => (⟨(step lg s.reg op).1, s.memo, s.cache⟩, .error e)
+    | .error e => (⟨(step lg s.reg op).1, s.memo, s.cache, s.dcache⟩, .error e)
   | .query q => ((answer lg s q).1, exMap .ans (answer lg s q).2)
 
 def crun (s : CState) : List COp → CState
